@@ -135,7 +135,7 @@ def scenarios_c10(rng, n, maximgs, thorough):
         lim = rng.choice([30, 30, 70, 200, 1 << 30])
         cfg = {"primary": "mh", "bits": rng.choice([8, 9, 12]), "il": rng.choice([30, 70, 200, 1 << 30]), "pl": lim, "imm": False, "keys": keys, "vals": seqeng.VALS}
         out.append({"cfg": cfg, "ops": [], "maxImgs": maximgs, "cont": CONT, "mode": "upgrade", "seed": vlib.seed() * 1000 + i, "onlyOps": [-1], "allTorn": thorough,
-                    "legacy": {"vals": vals, "freed": freed, "pending": rng.random() < 0.6, "bits": cfg["bits"], "lost": rng.choice([0, 0, 1, 2, 3])}})
+                    "legacy": {"vals": vals, "freed": freed, "pending": rng.random() < 0.6, "bits": cfg["bits"], "lost": rng.choice([0, 0, 1, 2, 3]), "torn": rng.choice([0, 0, 2, 6, 20])}})
     return out
 
 
